@@ -300,10 +300,15 @@ func c39(c *report.Check) {
 	seqEvals, sd := c39Seq(c, maxCap, depth)
 	scns := c39Scenarios(c.Thorough())
 	tb := 2
+	plans := []e2.Plan{{Scns: scns, Bound: -1, TotalBound: tb, Batch: 2}}
 	if c.Thorough() {
-		tb = 3
+		// the wide scenario set at bound 2, the quick set once more at bound 3 (bound 3 on
+		// the wide set is ~30M schedules)
+		small := c39Scenarios(false)
+		plans = append(plans, e2.Plan{Scns: small, Bound: -1, TotalBound: 3, Batch: 1})
+		c.Set("scenarios_at_deviation_bound_3", len(small))
 	}
-	sum := e2.Drive(c, []e2.Plan{{Scns: scns, Bound: -1, TotalBound: tb, Batch: 2}}, 0)
+	sum := e2.Drive(c, plans, 0)
 	c.Set("deviation_bound", tb)
 	reportE2(c, sum, fmt.Sprintf("concurrent leg: the real bufconn pipe (sync->vsync, time->logical clock, statement-level points) with a writer thread (chunked writes, then close), a reader thread (buffer size r, reads until error) and a third thread (close either end, or set a read/write deadline; timers fire when every thread is blocked) for buffer capacities x chunkings x read sizes: every schedule of %d scenarios with at most %d deviations; a call that never returns is a detected deadlock. Sequential leg: all non-blocking write(k)/read(m) sequences up to depth %d for capacities 1..%d against a byte queue (%d sequences, %d classes)", len(scns), tb, depth, maxCap, seqEvals, sd.N()), scns)
 	c.Set("sequential_sequences", seqEvals)
